@@ -9,6 +9,9 @@
 //	R3  net.Listen( / NewGrpcClient( / grpc.UnaryInterceptor( / grpc.StreamInterceptor(
 //	    in internal/net            -> verif* shims (added file zz_verif.go)
 //	R5  simrt.Yield(site) before channel sends / selects in statement position
+//	R7  os.Create( / os.OpenFile( / os.Rename( -> simrt.Create( / simrt.OpenFile( / simrt.Rename(  and
+//	    toml.NewEncoder(w) -> toml.NewEncoder(simrt.W(w))   in common/key and internal/fs: the file-level
+//	    steps of writing a key, group or share file become crash points
 //	    and first in every `go func` body
 //	R6  added files with exported accessors (from -extra dir)
 //
@@ -84,7 +87,8 @@ func main() {
 		inR1 := under(dir, r1dirs)
 		inR5 := under(dir, r5dirs)
 		isNet := dir == "internal/net" || dir == "internal/metrics"
-		if !inR1 && !inR5 && !isNet {
+		isFiles := dir == "common/key" || dir == "internal/fs"
+		if !inR1 && !inR5 && !isNet && !isFiles {
 			return nil
 		}
 		src, err := os.ReadFile(p)
@@ -225,6 +229,7 @@ func importName(f *ast.File, path string) string {
 
 func transform(path, rel string, src []byte, simsyncPath string, r1, r2, r3, r5 bool) ([]byte, bool, error) {
 	r4 := strings.HasPrefix(rel, "internal/core/")
+	r7 := strings.HasPrefix(rel, "common/key/") || strings.HasPrefix(rel, "internal/fs/")
 	fset := token.NewFileSet()
 	f, err := parser.ParseFile(fset, path, src, parser.ParseComments|parser.SkipObjectResolution)
 	if err != nil {
@@ -239,6 +244,8 @@ func transform(path, rel string, src []byte, simsyncPath string, r1, r2, r3, r5 
 	randName := importName(f, "math/rand")
 	netName := importName(f, "net")
 	grpcName := importName(f, "google.golang.org/grpc")
+	osName := importName(f, "os")
+	tomlName := importName(f, "github.com/BurntSushi/toml")
 
 	isSel := func(e ast.Expr, pkg, sel string) (*ast.SelectorExpr, bool) {
 		s, ok := e.(*ast.SelectorExpr)
@@ -274,6 +281,21 @@ func transform(path, rel string, src []byte, simsyncPath string, r1, r2, r3, r5 
 					needSimrt = true
 					keep[randName] = "var _ = %s.Int"
 					hits["R2.Perm"]++
+				}
+			}
+			if r7 {
+				for _, fn := range []string{"Create", "OpenFile", "Rename"} {
+					if sel, ok := isSel(x.Fun, osName, fn); ok {
+						edits = append(edits, edit{off(sel.X.Pos()), len(osName), "simrt"})
+						needSimrt = true
+						keep[osName] = "var _ = %s.Getpid"
+						hits["R7."+fn]++
+					}
+				}
+				if _, ok := isSel(x.Fun, tomlName, "NewEncoder"); ok && len(x.Args) == 1 {
+					edits = append(edits, edit{off(x.Args[0].Pos()), 0, "simrt.W("}, edit{off(x.Args[0].End()), 0, ")"})
+					needSimrt = true
+					hits["R7.NewEncoder"]++
 				}
 			}
 			if r4 {
